@@ -69,6 +69,15 @@ CHECKS["C05"] = {
     "design_ref": "4.5",
 }
 
+CHECKS["C04"] = {
+    "engine": "bootlink-sim",
+    "level": "exploration",
+    "text": "SB2.0 (unsigned / signed) and SB2.1 images built through the Python API (1..4 sections with arbitrary ids and HMAC-table sizes, all 13 command types with boundary values and load data of every length mod 16, versions, build number, SHA flag, explicit or self-chosen DEK/MAC/nonce/timestamp incl. a counter word next to wrap-around, RSA-2048/4096 roots, 1..4 entries in the RKH table) are given to two consumers: an independent ROM-loader model (RFC 3394 unwrap, header HMAC for 2.0/2.1, certificate block / RKH table / RSA signature, per-section encrypted header and HMAC table, AES-CTR with the nonce-derived counter measured from file start, command checksums, LOAD CRC) and SPSDK's own parse(). Fault-free: both must yield exactly what was given, and the header fields the supplied values. Storage faults between writer and consumers (bit flip biased to structure boundaries, truncation, wrong KEK, torn replacement) and deliveries through the real McuBoot.receive_sb_file over the simulated link with link faults: each consumer raises or returns equal content, never different content; a delivery that reports success made the device process exactly that content. The fault-free half is, candidly, generated inputs against a reference model (control_runs); the fault half is what the simulation adds.",
+    "note": "Trusted: the ROM-loader model c04/rom2.py (validated at start-up on 12 elftosb-made files under golden/sb2, incl. rejection of corrupted copies and of a wrong KEK; a failure there is exit 2), the C10 link/device models, the clock seam. One genuine deviation is recorded, not repaired: LOAD lengths are padded to 16 (known_findings.json).",
+    "technique": "deterministic simulation with fault injection: build -> storage fault -> simulated link -> independent ROM-loader model and SPSDK parser; seeded images, bit-flip / truncation / wrong-key / torn-write and link-fault injection",
+    "design_ref": "4.6",
+}
+
 ENGINES = [
     {"name": "register-refinement", "path": "c11/", "serves_properties": ["C11"], "kind_free_text": "seeded operation histories vs bit-vector reference model"},
     {"name": "entropy-history-sim", "path": "c17/", "serves_properties": ["C17"], "kind_free_text": "fork-per-epoch simulator with injective entropy and simulated wall clock"},
